@@ -64,7 +64,7 @@ def gen_dataset(rng, force=None):
     if force.get("index") and n > 0:
         index = force["index"]
     elif n > 0 and rng.random() < 0.3:
-        index = rng.choice(["id", "u", "t", "t"])
+        index = rng.choice(["id", "u", "t", "t", "rix"])
     fab = []
     if n > 0 and rng.random() < 0.5:
         for _ in range(rng.choice([1, 1, 2])):
@@ -99,7 +99,10 @@ def dataset_frame(ds):
         df["p"] = (np.arange(n) % m1).astype("int64")
     if "q" in ds["part"]:
         df["q"] = [["a", "b", "c"][(i // 2) % m2] for i in range(n)]
-    if ds["index"]:
+    if ds["index"] == "rix":
+        # a NAMED range index with start/step: stored in the pandas metadata only (kind 'range'); its labels are positional
+        df.index = pd.RangeIndex(start=5, stop=5 + 2 * n, step=2, name="rix")
+    elif ds["index"]:
         df = df.set_index(ds["index"])
     return df
 
@@ -123,7 +126,7 @@ def build_dataset(ds, root):
     kw = {}
     if ds["sizes"]:
         kw["row_group_offsets"] = offs
-    if ds["index"]:
+    if ds["index"] and ds["index"] != "rix":
         kw["write_index"] = True
     if ds["scheme"] == "simple":
         path = os.path.join(root, "ds.parquet")
@@ -327,7 +330,14 @@ def run_program(pf, prog):
 
 
 def index_names(df):
+    """names of the index levels that hold data; a RangeIndex is positional (its labels are not data), named or not"""
+    if isinstance(df.index, pd.RangeIndex):
+        return []
     return [n for n in df.index.names if n is not None]
+
+
+def range_name(df):
+    return df.index.name if isinstance(df.index, pd.RangeIndex) else None
 
 
 def recover_ids(df):
@@ -379,9 +389,8 @@ def frame_dtypes(df):
     out = {}
     for c in df.columns:
         out[str(c)] = dtype_sig(df[c].dtype)
-    for n in df.index.names:
-        if n is not None:
-            out[str(n)] = dtype_sig(df.index.get_level_values(n).dtype)
+    for n in index_names(df):
+        out[str(n)] = dtype_sig(df.index.get_level_values(n).dtype)
     return out
 
 
@@ -399,9 +408,8 @@ def frame_cells(df):
     out = {}
     for c in df.columns:
         out[str(c)] = F.cells(df[c])
-    for n in df.index.names:
-        if n is not None:
-            out[str(n)] = F.cells(pd.Series(df.index.get_level_values(n)))
+    for n in index_names(df):
+        out[str(n)] = F.cells(pd.Series(df.index.get_level_values(n)))
     return out
 
 
@@ -485,6 +493,8 @@ def oracle(base, prog, res):
             probs.append(("columns", "frame %d has columns %r, requested %r (index %r)" % (k, got_cols, want_cols, inames)))
         if index_names(df) != list(inames):
             probs.append(("columns", "frame %d has index %r, requested %r" % (k, index_names(df), list(inames))))
+        if idx["kind"] == "default" and not inames and range_name(df) != base["full_range_name"]:
+            probs.append(("columns", "frame %d: the range index is named %r, that of the full read %r" % (k, range_name(df), base["full_range_name"])))
         if len(df) != len(rows):
             probs.append(("rows", "frame %d has %d rows, the corresponding part of the full read has %d" % (k, len(df), len(rows))))
             continue
@@ -708,8 +718,8 @@ def base_facts(ds, pf):
     pcols = [str(c) for c in pf.cats]
     cols = [str(c) for c in pf.columns]
     return {"rgs": rg_desc, "counts": counts, "parts": parts, "total": pos, "full_len": len(full),
-            "full_cells": frame_cells(full), "full_dtypes": frame_dtypes(full), "full_categories": frame_categories(full), "full_columns_dtype": str(full.columns.dtype), "full_cols": [str(c) for c in full.columns], "full_index": index_names(full),
-            "cols": cols, "pcols": pcols, "index": [ds["index"]] if ds["index"] else [], "avail": cols + pcols,
+            "full_cells": frame_cells(full), "full_dtypes": frame_dtypes(full), "full_categories": frame_categories(full), "full_columns_dtype": str(full.columns.dtype), "full_range_name": range_name(full), "full_cols": [str(c) for c in full.columns], "full_index": index_names(full),
+            "cols": cols, "pcols": pcols, "index": [ds["index"]] if ds["index"] and ds["index"] != "rix" else [], "avail": cols + pcols,
             "cat_cols": [c["name"] for c in ds["extra"] if c["kind"].startswith("cat_")],
             "full_ids": recover_ids(full)}
 
